@@ -185,7 +185,11 @@ impl Report {
         if self.level == "model_checking" {
             coverage.insert("states".into(), json!(self.out.states.max(1)));
             coverage.insert("transitions".into(), json!(self.out.transitions.max(1)));
-            coverage.insert("traces_validated_against_impl".into(), json!(self.out.leaves));
+            // every explored path ran on the real code: complete histories plus the paths
+            // that ended by merging into an already expanded state
+            let merged = self.out.counters.get("engine_merged_into_visited_state").copied().unwrap_or(0);
+            coverage.insert("traces_validated_against_impl".into(), json!(self.out.leaves + merged));
+            coverage.insert("complete_histories".into(), json!(self.out.leaves));
             coverage.insert(
                 "explanation".into(),
                 json!("the explored transition system is the implementation itself: every transition calls the real entry point; the reference model runs in lock-step as oracle, so every explored history is a trace validated against the implementation"),
